@@ -9,6 +9,7 @@ import (
 	"os/exec"
 	"runtime"
 	"sort"
+	"strings"
 	"sync"
 	"time"
 )
@@ -86,7 +87,7 @@ type workResp struct {
 }
 
 // expandState computes all successors of the state reached by path.
-func expandState(sp Space, path []Op, wantInit bool) workResp {
+func expandState(sp Space, path []Op, wantInit bool, noTrace bool) workResp {
 	var resp workResp
 	w0, err := sp.Build(path)
 	if err != nil {
@@ -99,6 +100,10 @@ func expandState(sp Space, path []Op, wantInit bool) workResp {
 		return resp
 	}
 	ops := sp.Ops(w0)
+	parentTxt := ""
+	if noTrace {
+		parentTxt, _ = w0.StateText()
+	}
 	if wantInit {
 		txt, _ := w0.StateText()
 		resp.InitKey = HashText(txt)
@@ -119,12 +124,7 @@ func expandState(sp Space, path []Op, wantInit bool) workResp {
 		}
 		resp.OpsRun += len(path) + 1
 		s := succ{Op: op}
-		err = w.Apply(op)
-		if err == nil {
-			txt, _ := w.StateText()
-			s.Key = HashText(txt)
-			err = sp.Check(w)
-		}
+		s.Key, err = stepAndCheck(sp, w, op, noTrace, parentTxt)
 		if err != nil {
 			if v, ok := err.(*Violation); ok {
 				s.Viol = v.Msg
@@ -160,7 +160,7 @@ func WorkerMain() {
 				cur = MakeSpace(req.Spec)
 				curName = req.Spec.Name
 			}
-			resp := expandState(cur, req.Path, req.Init)
+			resp := expandState(cur, req.Path, req.Init, req.Spec.Has("notrace"))
 			if e := enc.Encode(resp); e != nil {
 				os.Exit(3)
 			}
@@ -414,4 +414,19 @@ func Explore(pool *Pool, spec Spec, deadline time.Time, maxViol int) (Stats, []F
 	}
 	st.Wall = time.Since(start).Seconds()
 	return st, found, herr
+}
+
+// stepAndCheck applies op to w (built from the prefix), computes the successor key and runs the
+// oracles; with noTrace a rejected request must leave the canonical state text unchanged.
+func stepAndCheck(sp Space, w *World, op Op, noTrace bool, parentTxt string) (string, error) {
+	err := w.Apply(op)
+	if err != nil {
+		return "", err
+	}
+	txt, _ := w.StateText()
+	key := HashText(txt)
+	if noTrace && strings.HasPrefix(w.LastRet, "err:") && txt != parentTxt {
+		return key, violf("rejected request %s (%s) left a trace: state before\n%s\nstate after\n%s", op, w.LastRet, parentTxt, txt)
+	}
+	return key, sp.Check(w)
 }
